@@ -80,6 +80,21 @@ def _canonical_walk(ctx: Ctx, rs: RuleSet, w):
               x_.func, h_) == h_.qualname for x_ in walk_function(h_.node)):
         visit = h_
   if visit is None:
+    # ... or as a recursive method of a small collector class made here
+    for c_ in ctx.calls(w):
+      cq_ = ctx.p.resolve(c_.func, w)
+      ci_ = ctx.p.classes.get(cq_) if cq_ else None
+      if ci_ is None:
+        continue
+      for m_ in ci_.methods.values():
+        if m_.params and any(
+            isinstance(x_, ast.Call) and isinstance(
+                x_.func, ast.Attribute) and x_.func.attr == m_.name and
+            isinstance(x_.func.value, ast.Name) and
+            x_.func.value.id == m_.params[0]
+            for x_ in walk_function(m_.node)):
+          visit = m_
+  if visit is None:
     raise AnalysisError(f'{w.qualname}: nested visit function not found')
   # children come from flatten + path_elements of one traverser and are
   # iterated in sorted(path element) order
